@@ -169,47 +169,6 @@ def r05_1(ctx):
     ctx.run_rule("R05.1", "response-code guard truth tables (5 sites)", body, floor=7)
 
 
-def fold_table(f, from_route_rule_key="action::Action::from_route_rule"):
-    """Per-iteration table of a fold over routes: {(produced, reset, stop): (effect, returns)}.
-    effect in {"none", "assign", "merge"}"""
-    loops = for_loops(f)
-    tables = []
-    for lp in loops:
-        s = Sym(f, copies=False)
-        rows = {}
-        uses = False
-        for p in lp.iteration_paths(s):
-            calls = [e for e in p.events if e[0] == "call" and e[1] == from_route_rule_key]
-            if not calls:
-                continue
-            uses = True
-            res = calls[0][3]
-            produced = reset = stop = None
-            for a, v in p.conds:
-                if a[0] == "disc" and a[1] == ("field", res, "0", None):
-                    produced = v == "Some"
-                if a == ("field", res, "1", None):
-                    reset = bool(v)
-                if a == ("field", res, "2", None):
-                    stop = bool(v)
-            eff = "none"
-            for e in p.events:
-                if e[0] == "call" and e[1] == "action::Action::merge":
-                    eff = "merge"
-                if e[0] == "set" and e[3] == ("field", ("variant", ("field", res, "0", None), "Some"), "0", "std::option::Option") and e[2] not in ("action_rule",):
-                    eff = "assign"
-            # assignment `action = action_rule` goes through the named temporary
-            names = {e[1]: e[3] for e in p.events if e[0] == "set"}
-            for e in p.events:
-                if e[0] == "set" and e[3][0] == "local" and names.get(e[3][1]) is not None:
-                    pass
-            returns = p.end[0] in ("ret",) or (p.end[0] == "stop" and p.end[1] not in (lp.next_block, lp.head()))
-            rows[(produced, reset, stop)] = (eff, returns, [e for e in p.events if e[0] in ("set", "call")])
-        if uses:
-            tables.append((lp, rows))
-    return tables
-
-
 def fold_semantics(f):
     """(table {(produced,reset,stop)->(effect,returns)}, loop) using value tracking of the
     accumulator: 'assign' when the accumulator variable is overwritten by the rule's action."""
